@@ -637,6 +637,24 @@ def generate(rng, index, tier):
         elif reduced and recipe['config']:
             recipe['config'].append(gen_regimen(rng))
     plan = forced if forced is not None else [None] * n_ops
+    if forced is None and cls == 'pkpd' and not reduced and dosable \
+            and rng.random() < 0.1:
+        # route with a dose compartment, back to a direct route (the two
+        # dose parameters go away again), then sensitivities for a subset:
+        # positions in every name table must have followed
+        comp, var = rng.choice(dosable)
+        cands = info['states'] + info['consts']
+        sel = rng.sample(cands, rng.randint(1, max(1, len(cands) - 1)))
+        ops.extend([
+            {'op': 'set_administration', 'on': 'm1', 'compartment': comp,
+             'amount_var': var, 'direct': False},
+            {'op': 'set_administration', 'on': 'm1', 'compartment': comp,
+             'amount_var': var, 'direct': True},
+            {'op': 'enable_sensitivities', 'on': 'm1', 'enabled': True,
+             'names': [shadow['m1']['par'].get(c, c) for c in sel]},
+            {'op': 'simulate', 'on': 'm1', 'theta': gen_theta(rng, info),
+             'times': gen_times(rng)}])
+        shadow['m1']['indirect'] = False
     for fk in plan:
         k = fk or rng.choices(kinds, [weights[x] for x in kinds])[0]
         h = rng.choice(handles)
